@@ -31,6 +31,10 @@ if os.path.realpath(core.REPO) != "/repo":
     REPLAY_DIR = os.path.join(os.environ.get("TMPDIR", "/tmp"), "sfsim-mutant-replays")
 KNOWN_FILE = os.path.join(VERIF, "known_findings.jsonl")
 DEFAULT_SEED = 20260921
+# maintenance mode (tools/refresh_known.py): one minimised replay per signature and chunk, no early stop
+COLLECT = bool(os.environ.get("SFSIM_COLLECT"))
+if COLLECT or os.environ.get("SFSIM_NO_KNOWN"):
+    EVIDENCE_DIR = os.path.join(os.environ.get("TMPDIR", "/tmp"), "sfsim-maintenance-evidence")
 _RUNS = 0
 
 
@@ -194,7 +198,8 @@ def _worker_chunk(pid: str, base_seed: int, cases: list, do_shrink: bool, max_vi
                 agg["violations"].append({"index": idx, "seed": seed, "klass": o["klass"],
                                           "signature": o["signature"], "message": o["message"][:300],
                                           "params": params, "tape": None, "known": True})
-            elif len([v for v in agg["violations"] if not v.get("known")]) < max_viol:
+            elif (len([v for v in agg["violations"] if not v.get("known")]) < max_viol
+                  and not (COLLECT and any(v.get("signature") == o["signature"] and v.get("tape") is not None for v in agg["violations"]))):
                 if do_shrink:
                     o = shrink_violation(mod, o)
                 o["index"] = idx
@@ -278,7 +283,7 @@ def run_batch(pid: str, tier: str, base_seed: int, workers: int | None = None,
     try:
         pending = {}
         it = iter(chunks)
-        max_viol = 3
+        max_viol = 3 if not COLLECT else 8
 
         def submit_more():
             nonlocal stopped_early
@@ -324,7 +329,7 @@ def run_batch(pid: str, tier: str, base_seed: int, workers: int | None = None,
             if len(total["samples"]) < 3:
                 total["samples"] += agg["samples"][: 3 - len(total["samples"])]
             # stop early on violations that are not known findings: enough to report
-            if len([v for v in total["violations"] if v.get("tape") is not None]) >= 6:
+            if not COLLECT and len([v for v in total["violations"] if v.get("tape") is not None]) >= 6:
                 stopped_early = True
                 for f in list(pending):
                     if f.cancel():
